@@ -173,6 +173,70 @@ func runC21(c *eng.Ctx) {
 	}
 	c.Expect("SIB-hardlink-read", 6)
 
+	// (5) COLLECT-hardlinks: a recursive directory delete drops the children from the store wholesale, so the
+	// identities of the removed names are collected on the way (own children and, through the recursion, all
+	// deeper levels) and each collected occurrence is released exactly once
+	if fn := c.NeedFunc("weed/filer", "(*Filer).doBatchDeleteFolderMetaAndData"); fn != nil {
+		var rec []ssa.Instruction
+		for _, in := range eng.Find(fn, eng.PlainCallTo("filer.Filer).doBatchDeleteFolderMetaAndData")) {
+			rec = append(rec, in)
+		}
+		var succ []*ssa.Return
+		for _, r := range eng.Find(fn, eng.IsReturn) {
+			ret := r.(*ssa.Return)
+			if ret.Block() != fn.Recover && len(ret.Results) == 3 && eng.MayBeNil(ret.Results[2]) {
+				succ = append(succ, ret)
+			}
+		}
+		if len(rec) != 1 || len(succ) == 0 {
+			c.Undecided("COLLECT-hardlinks", eng.FuncName(fn), fn.Pos(), "recursion / success return not found")
+		} else {
+			sub := eng.ResultOf(rec[0], 1)
+			okRec := sub != nil
+			okOwn := true
+			for _, ret := range succ {
+				if sub == nil || !eng.Mentions(ret.Results[1], 12, func(v ssa.Value) bool { return v == sub }) {
+					okRec = false
+				}
+				if !eng.Mentions(ret.Results[1], 12, func(v ssa.Value) bool { return eng.IsField(v, "Entry.HardLinkId") }) {
+					okOwn = false
+				}
+			}
+			c.Ob("COLLECT-hardlinks", eng.FuncName(fn)+" deeper-levels", okRec, rec[0].Pos(), "the identities collected in a sub-directory reach the result of the enclosing level")
+			c.Ob("COLLECT-hardlinks", eng.FuncName(fn)+" own-children", okOwn, fn.Pos(), "the identity of each hard-linked child is collected")
+		}
+	}
+	if fn := c.NeedFunc("weed/filer", "(*Filer).maybeDeleteHardLinks"); fn != nil {
+		calls := eng.Find(fn, eng.PlainCallTo("filer.FilerStoreWrapper).DeleteHardLink", "filer.VirtualFilerStore).DeleteHardLink"))
+		if len(calls) != 1 || len(eng.CycleOf(calls[0].Block())) == 0 {
+			c.Undecided("COLLECT-hardlinks", eng.FuncName(fn), fn.Pos(), "release call in a loop not found")
+		} else {
+			// every iteration releases: from the loop body's entry no path returns to the loop header without the call
+			cyc := eng.CycleOf(calls[0].Block())
+			okEach := true
+			for b := range cyc {
+				if b.Comment != "rangeindex.body" && b.Comment != "rangeiter.body" {
+					continue
+				}
+				var header *ssa.BasicBlock
+				for _, p := range b.Preds {
+					if cyc[p] {
+						header = p
+					}
+				}
+				if header == nil {
+					continue
+				}
+				hit, _ := eng.Search(eng.Loc{B: b}, func(in ssa.Instruction) bool { return in.Block() == header }, eng.SearchOpt{Barrier: eng.Is(calls[0])})
+				if hit != nil {
+					okEach = false
+				}
+			}
+			c.Ob("COLLECT-hardlinks", eng.FuncName(fn)+" one-release-per-occurrence", okEach, calls[0].Pos(), "each collected occurrence releases its identity once (two names of one identity inside the deleted tree release it twice)")
+		}
+	}
+	c.Expect("COLLECT-hardlinks", 3)
+
 	// (4) DeleteHardLink
 	if fn := c.NeedFunc("weed/filer", "(*FilerStoreWrapper).DeleteHardLink"); fn != nil {
 		del := eng.Find(fn, eng.PlainCallTo("filer.FilerStoreWrapper).KvDelete"))
